@@ -101,6 +101,8 @@ static void maybe_delay(long pnum, int site)
 /* pivot log (trace & 2): one record per p?gstrf_pivotL call */
 typedef struct { long j, usepr, old, diag, ncand, piv, usepr_out, pn; double thresh; long *rows; REAL *vals; } pivrec_t;
 static pivrec_t *pivlog; static long npiv, cappiv;
+#define MAXBUMP 20000
+static long bumplog[2][MAXBUMP][3]; static long nbump[2];
 static __thread pivrec_t tl_piv;
 
 #ifdef SLU_MT_VERIF
@@ -152,6 +154,15 @@ static void verif_cb(int ev, long pnum, long a, long b, long c, const void *p)
         break;
     case SLU_VEV_ALLOC: {
         const long *q = (const long *) p;
+        if ((a == UCOL || a == USUB || a == LSUB) && q) {
+            /* locked bump allocators (the event is raised inside the lock, so this log is in lock order) */
+            int w = (a == LSUB);
+            pthread_mutex_lock(&evmu);
+            if (nbump[w] < MAXBUMP) { bumplog[w][nbump[w]][0] = q[0]; bumplog[w][nbump[w]][1] = c; bumplog[w][nbump[w]][2] = q[1]; }
+            nbump[w]++;
+            pthread_mutex_unlock(&evmu);
+            maybe_delay(pnum, ev);      /* holding the allocator lock longer is a legal schedule */
+        }
         if (a == 100 && q) {           /* DynamicSetMap: slot [q0, q0+c) for the H-supernode led by column b */
             if (b >= 0 && b <= cb_n) dyn_end[b] = q[0] + c;
             if (q[0] + c > q[1]) { pthread_mutex_lock(&evmu); slot_overrun++; slot_overrun_col = b; slot_overrun_by = q[0] + c - q[1]; pthread_mutex_unlock(&evmu); }
@@ -196,7 +207,7 @@ static void cb_reset(case_t *c)
     init_map_n = -1; init_nzlumax = -1; slot_overrun_by = 0; lusup_allocs = 0; max_lusup_end = 0;
     if (!evbuf) evbuf = (evrec_t *) malloc(MAXEV * sizeof(evrec_t));
     nev = 0; slot_overrun = 0; slot_overrun_col = -1; nsuper_events = lsub_events = order_inversions = 0;
-    thread_begin = thread_end = sched_calls = sched_nonempty = 0; max_qtail = 0; last_nsuper_of_lsub = -1;
+    thread_begin = thread_end = sched_calls = sched_nonempty = 0; max_qtail = 0; last_nsuper_of_lsub = -1; nbump[0] = nbump[1] = 0;
     for (i = 0; i < npiv; ++i) { free(pivlog[i].rows); free(pivlog[i].vals); } npiv = 0;
     tl_init = 0; (void) i;
 #ifdef SLU_MT_VERIF
@@ -221,6 +232,13 @@ static void cb_print(case_t *c)
     if (c->trace & 4) { printf("\"map_in_sup\":["); for (i = 0; i <= c->n && init_map_n >= 0; ++i) printf("%s%ld", i ? "," : "", init_map[i]); printf("],"); }
     printf("\"release_not_once\":%ld,\"release_bad_col\":%ld,\"thread_begin\":%ld,\"thread_end\":%ld,\"sched_calls\":%ld,\"sched_nonempty\":%ld,\"max_qtail\":%ld,\"slot_overrun\":%ld,\"slot_overrun_col\":%ld,\"nsuper_events\":%ld,\"lsub_events\":%ld,",
            bad_rel, bad_rel_col, thread_begin, thread_end, sched_calls, sched_nonempty, max_qtail, slot_overrun, slot_overrun_col, nsuper_events, lsub_events);
+    {   int w; long k2;
+        for (w = 0; w < 2; ++w) {
+            printf("\"%s\":[", w ? "bump_l" : "bump_u");
+            for (k2 = 0; k2 < nbump[w] && k2 < MAXBUMP; ++k2) printf("%s[%ld,%ld,%ld]", k2 ? "," : "", bumplog[w][k2][0], bumplog[w][k2][1], bumplog[w][k2][2]);
+            printf("],");
+        }
+    }
     if (c->trace & 2) {
         long k;
         printf("\"pivots\":[");
